@@ -62,6 +62,7 @@ class Harness:
         self.violations = []          # (key, message, replay_path)
         self.known_hits = []
         self.harness_errors = []
+        self.vacuous_prefixes = []
         self.selftests = 0
         self.solver_time = 0.0
         self.extra = {}
@@ -263,7 +264,10 @@ class Harness:
             if ob.kind == 'reach':
                 ob.status = 'ok' if r == 'sat' else ('vacuous' if r == 'unsat' else 'unknown')
                 if r == 'unsat':
-                    self.harness_errors.append('vacuity guard failed (hypotheses unsatisfiable): %s' % ob.name)
+                    # the path's hypotheses are unsatisfiable: an infeasible path that the explorer could not prune within its
+                    # budget.  Its obligations are vacuous and must not count as discharged.
+                    prefix = ob.name.rsplit('/', 1)[0] + '/'
+                    self.vacuous_prefixes.append(prefix)
                 continue
             if ob.kind == 'twin':
                 ob.status = 'ok' if r == 'sat' else ('vacuous' if r == 'unsat' else 'unknown')
@@ -273,6 +277,15 @@ class Harness:
             ob.status = r
             if r == 'sat':
                 self._handle_sat(ob)
+
+    def _apply_vacuous(self):
+        for ob in self.obs:
+            if ob.kind in ('prove', 'cert', 'certb') and ob.status == 'unsat' and any(ob.name.startswith(p) for p in self.vacuous_prefixes):
+                ob.status = 'vacuous-path'
+                ob.detail = 'path hypotheses unsatisfiable (infeasible path): not counted'
+        guards = [o for o in self.obs if o.kind == 'reach']
+        if guards and all(g.status == 'vacuous' for g in guards):
+            self.harness_errors.append('every reachability guard failed: the harness assumptions are contradictory')
 
     def _apply_deps(self):
         for ob in self.obs:
@@ -338,11 +351,12 @@ class Harness:
     def finish(self, level='other', explanation='', samples=None):
         self.collect()
         self._apply_deps()
+        self._apply_vacuous()
         self.kill_pool()
         proves = [o for o in self.obs if o.kind in ('prove', 'cert', 'certb')]
         guards = [o for o in self.obs if o.kind in ('reach', 'twin')]
         discharged = [o for o in proves if o.status == 'unsat']
-        inconclusive = [o for o in proves if o.status in ('unknown', 'sat-spurious', 'sat-unreplayed', 'pending')]
+        inconclusive = [o for o in proves if o.status in ('unknown', 'sat-spurious', 'sat-unreplayed', 'pending', 'vacuous-path')]
         distinct = len(set(hashlib.sha1((o.goal.sexpr() if o.goal is not None else o.name).encode()).hexdigest()
                            for o in proves if not (o.res and o.res.get('strategy') == 'simplify')))
         smp = samples or []
